@@ -138,6 +138,9 @@ def _sort_structure(ctx, mod, f, q):
         body, param = single_return(fn), fn.args.args[0].arg
     elif isinstance(key, ast.Attribute) and key.attr == "getTime":
         body, param = ast.parse("x.getTime()").body[0].value, "x"
+    mv = mod.module_assign(key.id) if isinstance(key, ast.Name) and body is None else (key if isinstance(key, ast.Call) else None)
+    if isinstance(mv, ast.Call) and (dotted(mv.func) or "").split(".")[-1] == "methodcaller" and len(mv.args) == 1 and isinstance(mv.args[0], ast.Constant):
+        body, param = ast.parse(f"x.{mv.args[0].value}()").body[0].value, "x"
     if body is None:
         ctx.note("sort/key-is-scheduled-time: key function not recognised, clause left to sort/ascending-stable")
         return
@@ -158,6 +161,12 @@ def check(ctx):
     for st in mod.tree.body:
         if isinstance(st, ast.FunctionDef) and not st.decorator_list:
             MiniEval.GLOBALS[st.name] = (lambda *a_, _f=st, **k_: MiniEval.call(_f, a_, k_))
+        elif isinstance(st, ast.Assign) and len(st.targets) == 1 and isinstance(st.targets[0], ast.Name) and isinstance(st.value, ast.Call) \
+                and (dotted(st.value.func) or "").split(".")[-1] in ("methodcaller", "attrgetter", "itemgetter"):
+            try:        # module-level key functions built from the operator module (pure stdlib constructors)
+                MiniEval.GLOBALS[st.targets[0].id] = MiniEval({}, {}).expr(st.value)
+            except Exception:
+                pass
 
     sorters = set()
     with ctx.section("seconds"):
@@ -721,4 +730,21 @@ MUTANTS += [
            more=[(TASK, _PUMP_DEF, _GEN.replace("        item.called = 1\n        item.func(*item.args, **item.kw)\n", "        item.func(*item.args, **item.kw)\n        item.called = 1\n") + _PUMP_DEF)]),
     Mutant("generator-loop-without-resort", TASK, _ADV, _ADV_GEN.replace("            self._run(call)\n            self._sortCalls()\n", "            self._run(call)\n"),
            expect_rule="advance/resorted-after-call", more=[(TASK, _PUMP_DEF, _GEN + _PUMP_DEF)]),
+]
+
+_STEP = ("    def _step(self):\n        self._sortCalls()\n        if self.calls:\n            if self.calls[0].getTime() <= self.seconds():\n                due = self.calls.pop(0)\n"
+         "                due.called = 1\n                due.func(*due.args, **due.kw)\n                return True\n        return False\n\n")
+_ADV_STEP = "        self.rightNow += amount\n        while self._step():\n            pass\n"
+SILENT += [
+    # advance as `while self._step(): pass`, the step sorting first and returning whether it ran a call; sort key from the operator module
+    Silent("step-helper-returning-bool", TASK, _ADV, _ADV_STEP,
+           more=[(TASK, _PUMP_DEF, _STEP + _PUMP_DEF), (TASK, "key=lambda a: a.getTime()", "key=_whenScheduled"),
+                 (TASK, "@implementer(IReactorTime)\nclass Clock:", "from operator import methodcaller\n_whenScheduled = methodcaller(\"getTime\")\n\n\n@implementer(IReactorTime)\nclass Clock:")]),
+]
+MUTANTS += [
+    Mutant("step-helper-does-not-sort", TASK, _ADV, _ADV_STEP, expect_rule="advance/sorted-before-head", more=[(TASK, _PUMP_DEF, _STEP.replace("        self._sortCalls()\n", "") + _PUMP_DEF)]),
+    Mutant("step-helper-stops-after-one-call", TASK, _ADV, _ADV_STEP, expect_rule="advance/all-due-calls-run",
+           more=[(TASK, _PUMP_DEF, _STEP.replace("                return True\n", "                return False\n") + _PUMP_DEF)]),
+    Mutant("operator-key-on-unadjusted-time", TASK, "key=lambda a: a.getTime()", "key=_whenScheduled", expect_rule="sort/",
+           more=[(TASK, "@implementer(IReactorTime)\nclass Clock:", "from operator import attrgetter\n_whenScheduled = attrgetter(\"time\")\n\n\n@implementer(IReactorTime)\nclass Clock:")]),
 ]
